@@ -120,5 +120,13 @@ def run(ctx, rep):
                 else:
                     rep.ob('R8.3', f'{w.policy}:{k}:flag-unknown', None, f'flag is {show(flag)[:80]}', world=w.describe())
     rep.extra['worlds_exempt_interval_methods'] = n_exempt
+    # outcomes of the policy layer that ended in a failure (an index with a key the interpreter could not resolve, an unwrap) have no
+    # final cells: nothing above was decided for them.  The failure itself is C07's finding; here it is a gap, not a verdict.
+    lost = {}
+    for e in pa.panics:
+        lost[str(e.get('info'))[:80]] = lost.get(str(e.get('info'))[:80], 0) + 1
+    for k_, n_ in sorted(lost.items()):
+        rep.ob('R8.0', 'outcomes-without-final-cells', None, f'{n_} outcome(s) of the policy layer end in a failure ({k_}): scope, gate and flags '
+               'are not decided for them')
     for w in pa.worlds[:: max(1, len(pa.worlds) // 12)]:
         rep.sample({'world': w.describe(), 'final': {k: W.show_cell(v) for k, v in (w.final or {}).items()}})
